@@ -12,6 +12,7 @@ the property text (for `rank` cases from the generator's intended kinds, not fro
 from __future__ import annotations
 
 import itertools
+import json
 import math
 import os
 from fractions import Fraction
@@ -28,7 +29,11 @@ RULE = (
     "distance exactly on the threshold, unknown/any-policy TP, non-target / FP-labelled ignored), heading weights, "
     "confidence ties, the input permutation and flat/nested input; long: random rankings up to 400 results with heavy "
     "confidence ties over the four matching modes; map: random multi-label scenes matched by the real get_object_results "
-    "through Map / MetricsScore.evaluate_detection / the real manager (frame and scene level); rank2d: 2-D objects. "
+    "through Map / MetricsScore.evaluate_detection / the real manager (frame and scene level); scene: 2-5 frames through the "
+    "real manager with chosen frame shapes (empty / estimates without ground truth / ground truths with no estimate at all / "
+    "ground truths of one label with no estimate of that label / perfect / random) so that a label is missed in one frame and "
+    "detected in another, the scene Map recomputed from the frame results the manager holds (pooled lists, summed ground-truth "
+    "counts), asked twice, frames re-read afterwards; rank2d: 2-D objects. "
     "Non-trivial = at least one result; distinct = distinct canonical JSON of the case."
 )
 THEOREMS = [
@@ -430,6 +435,125 @@ def _map_case(rng, via):
     return case
 
 
+# ---- multi-frame scenes with particular frame shapes (scene-level pooling)
+
+SHAPES = ["empty", "ghost", "allmissed", "missed", "perfect", "normal"]
+_GRID = [(12.0 * (i % 4) - 18.0, 10.0 * (i // 4) - 5.0) for i in range(8)]
+
+
+def _shaped_frame(rng, targets, shape, L):
+    """one frame of a scene. `L` is the label of interest:
+    empty     no ground truth, no estimate
+    ghost     estimates (target labels, L among them) but no ground truth
+    allmissed ground truths (>= 1 of L) and no estimate at all
+    missed    ground truths of L without ANY estimate labelled L; other labels are detected, clutter of other labels
+    perfect   every ground truth (>= 1 of L) has an estimate of its own label within every threshold
+    normal    the random scene of the single-frame families"""
+    if shape == "normal":
+        fr = _scene(rng, targets, 5)
+        fr["shape"] = shape
+        return fr
+    others = [t for t in targets if t != L]
+    gts, ests = [], []
+    slots = list(_GRID)
+    rng.shuffle(slots)
+
+    def gt(lab):
+        x, y = slots.pop()
+        g = {"l": lab, "x": x + rng.choice([0.0, 0.5]), "y": y, "z": 0.0, "k": rng.randint(-7, 8), "id": len(gts), "ge": "g"}
+        gts.append(g)
+        return g
+
+    def est(lab, x, y, k):
+        ests.append({"l": lab, "x": x, "y": y, "z": 0.0, "k": k, "c": rng.randint(1, 8) / 8, "id": len(ests), "ge": "e"})
+
+    def hit(g, lab=None):
+        dx, dy = rng.choice([[0.0, 0.0], [0.25, 0.0], [0.0, 0.25], [0.25, 0.25]])
+        est(lab or g["l"], g["x"] + dx, g["y"] + dy, g["k"] + rng.choice([0, 0, 0, 1, -2, 4, 8]))
+
+    def clutter(labs, n):
+        for _ in range(n):
+            est(rng.choice(labs), 40.0 + 8.0 * len(ests), -30.0 + 4.0 * rng.randint(0, 3), 0)
+
+    if shape == "ghost":
+        clutter([L], 1)
+        clutter(targets + ["unknown"], rng.randint(0, 2))
+    elif shape == "allmissed":
+        for _ in range(rng.randint(1, 2)):
+            gt(L)
+        for _ in range(rng.randint(0, 2)):
+            gt(rng.choice(targets + ["truck"]))
+    elif shape == "missed":
+        for _ in range(rng.randint(1, 2)):
+            g = gt(L)
+            if others + ["unknown", "truck"] and rng.random() < 0.4:
+                hit(g, rng.choice(others + ["unknown", "truck"]))  # a wrongly labelled estimate on top of the missed ground truth
+        for _ in range(rng.randint(0, 2)):
+            if others:
+                g = gt(rng.choice(others))
+                if rng.random() < 0.8:
+                    hit(g)
+        clutter(others + ["unknown", "truck"], rng.randint(0, 2))
+    elif shape == "perfect":
+        hit(gt(L))
+        for _ in range(rng.randint(0, 2)):
+            hit(gt(rng.choice(targets)))
+    rng.shuffle(ests)
+    return {"est": ests, "gt": gts, "shape": shape}
+
+
+def _scene_case(rng, nframes=None, shapes=None, targets=None, policy=None):
+    """2-5 frames through the real manager; some frame holds ground truths of a target label but no estimate of it, and the
+    label is (usually) detected in another frame"""
+    k = rng.randint(1, 3)
+    targets = targets or rng.sample(["car", "bicycle", "pedestrian", "motorbike"], k)
+    policy = policy or rng.choice(["DEFAULT", "DEFAULT", "DEFAULT", "ALLOW_UNKNOWN", "ALLOW_ANY"])
+    L = rng.choice(targets)
+    if shapes is None:
+        n = nframes or rng.randint(2, 5)
+        shapes = [rng.choice(["missed", "allmissed"]), rng.choice(["perfect", "perfect", "normal", "ghost"])]
+        while len(shapes) < n:
+            shapes.append(rng.choice(SHAPES))
+        rng.shuffle(shapes)
+    frames = []
+    for sh in shapes:
+        # the other labels get their own missed / ghost frames too
+        frames.append(_shaped_frame(rng, targets, sh, L if rng.random() < 0.7 else rng.choice(targets)))
+    fam = {m: [_thr(rng, m, len(targets)) for _ in range(1 if m == "center" else (1 if rng.random() < 0.25 else 0))] for m in MODES}
+    return {"kind": "map", "via": "manager", "scene": True, "targets": targets, "policy": policy, "fam": fam, "frames": frames}
+
+
+def _scene_corpus():
+    """hand-written scenes: one label, threshold 1.0, the frame shapes in every position"""
+    def g(i, lab="car", k=0):
+        x, y = _GRID[i]
+        return {"l": lab, "x": x, "y": y, "z": 0.0, "k": k, "id": i, "ge": "g"}
+
+    def e(i, c, lab="car", dx=0.0, k=0):
+        x, y = _GRID[i]
+        return {"l": lab, "x": x + dx, "y": y, "z": 0.0, "k": k, "c": c, "id": i, "ge": "e"}
+
+    perfect = {"est": [e(0, 0.875)], "gt": [g(0)], "shape": "perfect"}
+    perfect2 = {"est": [e(1, 0.5, k=2), e(2, 0.75)], "gt": [g(1), g(2)], "shape": "perfect"}
+    missed = {"est": [], "gt": [g(3)], "shape": "allmissed"}
+    missed2 = {"est": [e(4, 0.625, lab="pedestrian")], "gt": [g(4), g(5), g(6, lab="pedestrian")], "shape": "missed"}
+    ghost = {"est": [e(7, 0.75)], "gt": [], "shape": "ghost"}
+    far = {"est": [e(0, 0.25, dx=3.0)], "gt": [g(0)], "shape": "normal"}
+    empty = {"est": [], "gt": [], "shape": "empty"}
+    fam = {"center": [[1.0, 1.0]], "plane": [], "iou2d": [], "iou3d": []}
+    seqs = [[perfect, missed], [missed, perfect], [perfect, missed2], [missed, missed2], [ghost, missed], [missed, ghost, perfect2],
+            [empty, missed, perfect], [perfect, empty, missed, perfect2, missed2], [far, missed, perfect2], [ghost, empty],
+            [missed2, perfect2, missed, ghost, far]]
+    cs = []
+    for frames in seqs:
+        cs.append({"kind": "map", "via": "manager", "scene": True, "targets": ["car", "pedestrian"], "policy": "DEFAULT",
+                   "fam": {k: [list(t) for t in v] for k, v in fam.items()}, "frames": [dict(f) for f in frames]})
+    cs.append({"kind": "map", "via": "manager", "scene": True, "targets": ["car"], "policy": "DEFAULT",
+               "fam": {"center": [[1.0], [2.0]], "plane": [[2.0]], "iou2d": [[0.5]], "iou3d": [[0.3]]},
+               "frames": [dict(perfect), dict(missed), dict(perfect2)]})
+    return cs
+
+
 def _rank2d_case(rng):
     n = rng.randint(1, 6)
     mode = rng.choice(["center", "iou2d", "iou3d", "plane"])
@@ -471,6 +595,7 @@ def corpus():
     # threshold list shorter than the target list -> IndexError when the second label is looked up
     it = _realise("T", r, 0, 0.5, True)
     cs.append({"kind": "rank", "items": [it], "G": 1, "mode": "center", "targets": ["bicycle", "car"], "thrs": [1.0]})
+    cs.extend(_scene_corpus())
     return cs
 
 
@@ -488,6 +613,7 @@ def generate(rng, tier):
             for G in range(0, n + 2):
                 cases.append(_rank_case(list(kinds), G, rng))
     nl, nm, ns, ng, n2 = (60, 260, 60, 14, 60) if tier == "quick" else (500, 2500, 500, 120, 400)
+    nsc = 240 if tier == "quick" else 1200
     for i in range(nl):
         cases.append(_long_case(rng, 400 if i % 3 == 0 else 60))
     for _ in range(nm):
@@ -496,6 +622,8 @@ def generate(rng, tier):
         cases.append(_map_case(rng, "score"))
     for _ in range(ng):
         cases.append(_map_case(rng, "manager"))
+    for _ in range(nsc):
+        cases.append(_scene_case(rng))
     for _ in range(n2):
         cases.append(_rank2d_case(rng))
     return cases
@@ -543,9 +671,18 @@ def _manager(targets, fam, policy):
     return cfg, PerceptionEvaluationManager(cfg)
 
 
+def _num_gt(a):
+    g = getattr(a, "num_ground_truth", None)
+    return int(g) if isinstance(g, (int, float)) and not isinstance(g, bool) and float(g).is_integer() else None
+
+
 def _map_out(m, mode, thrs):
     return {"mode": mode, "thrs": [float(t) for t in thrs], "aps": [ap_out(a) for a in m.aps], "aphs": [ap_out(a) for a in m.aphs],
-            "map": fnum(m.map), "maph": fnum(m.maph)}
+            "map": fnum(m.map), "maph": fnum(m.maph), "G": [_num_gt(a) for a in m.aps], "Gh": [_num_gt(a) for a in m.aphs]}
+
+
+def _maps_of(score):
+    return [_map_out(m, _mode_name(m.matching_mode), m.matching_threshold_list) for m in score.maps]
 
 
 _REV = None
@@ -613,7 +750,13 @@ def run_impl(case):
                                   "gts": [LID[g.semantic_label.label.value] for g in r.frame_ground_truth.objects]})
             out["frame_maps"].append([_map_out(m, _mode_name(m.matching_mode), m.matching_threshold_list) for m in r.metrics_score.maps])
         sc = mgr.get_scene_result()
-        out["maps"] = [_map_out(m, _mode_name(m.matching_mode), m.matching_threshold_list) for m in sc.maps]
+        out["maps"] = _maps_of(sc)
+        # what the manager holds after the scene evaluation, and the same question asked a second time
+        out["stored"] = [{"res": [describe(x) for x in fr_.object_results],
+                          "gts": [LID[g.semantic_label.label.value] for g in fr_.frame_ground_truth.objects]}
+                         for fr_ in mgr.frame_results]
+        out["frame_maps_after"] = [_maps_of(fr_.metrics_score) for fr_ in mgr.frame_results]
+        out["maps_again"] = _maps_of(mgr.get_scene_result())
         return out
     except Exception as e:
         return {"err": type(e).__name__}
@@ -839,6 +982,147 @@ def _oracle_map(tag, m, frames, targets, scene):
     return None
 
 
+def _bucket_of(d, tnames):
+    """the per-label list a result belongs to: its own label if that is evaluated, else the label of its ground truth"""
+    el = LABELS[d["l"]]
+    if el in tnames:
+        return el
+    return LABELS[d["g"]["l"]] if d["g"] is not None else None
+
+
+def _ap_bracket(confs, ws, G):
+    """[lowest, highest] interpolated PR area over the orders the property allows (any order among equal confidences):
+    the union of the rectangles grows with the running sums, so heaviest-first / lightest-first inside each tie group are the
+    extremes; both coincide when no tie group mixes weights"""
+    if not ws:
+        return None
+    lo = sorted(range(len(ws)), key=lambda i: (-confs[i], ws[i]))
+    hi = sorted(range(len(ws)), key=lambda i: (-confs[i], -ws[i]))
+    return rect_union_ap([ws[i] for i in lo], G), rect_union_ap([ws[i] for i in hi], G)
+
+
+def _recompute_map(tag, m, frames, targets):
+    """INDEPENDENT recomputation of one real Map output from frame records [{"res": descriptors, "gts": label ids}]: per label
+    the pooled result list of all frames, the ground-truth count summed over all frames, TP by the property's rule, AP / APH as
+    the rectangle-union area in Fractions (nothing of the code's tp_list / fp_list is used), mAP / mAPH as the mean over the
+    labels that have a result."""
+    tnames = list(targets)
+    los = {"aps": [], "aphs": []}
+    his = {"aps": [], "aphs": []}
+    exact = True
+    for li, (lab, thr) in enumerate(zip(tnames, m["thrs"])):
+        pooled = [d for fr in frames for d in fr["res"] if _bucket_of(d, tnames) == lab]
+        G = sum(1 for fr in frames for g in fr["gts"] if LABELS[g] == lab)
+        per_frame = (f"ground truths per frame {[sum(1 for g in fr['gts'] if LABELS[g] == lab) for fr in frames]}, "
+                     f"results per frame {[sum(1 for d in fr['res'] if _bucket_of(d, tnames) == lab) for fr in frames]}")
+        held = [h[li] for h in (m.get("G") or [], m.get("Gh") or []) if li < len(h)]
+        count_note = "" if all(h is None or h == G for h in held) else f"; the value was computed against {held} ground truths"
+        tps = [tp_by_text(d, m["mode"], lab, thr) for d in pooled]
+        if any(t is None for t in tps):
+            exact = False
+            continue
+        confs = [Fraction(d["c"]) for d in pooled]
+        for key, ws in (("aps", [Fraction(int(t)) for t in tps]),
+                        ("aphs", [Fraction(d["h"]) if t else Fraction(0) for d, t in zip(pooled, tps)])):
+            if li >= len(m[key]):
+                if key == "aps":
+                    return f"{tag}: no AP for label {lab}"
+                continue
+            a = m[key][li]
+            if "err" in a:
+                return f"{tag}[{lab}].{key}: {a['err']}"
+            br = _ap_bracket(confs, ws, G)
+            if br is None:
+                if a["ap"] is not None:
+                    return f"{tag}[{lab}].{key}: no result of this label in any frame but the value is {a['ap']} (must be undefined)"
+                continue
+            if a["ap"] is None:
+                return f"{tag}[{lab}].{key}: {len(pooled)} results but the value is undefined"
+            if not (float(br[0]) - TOL <= a["ap"] <= float(br[1]) + TOL):
+                return (f"{tag}[{lab}].{key}: {a['ap']} but the interpolated precision-recall area of the pooled results "
+                        f"({len(pooled)} results, {G} ground truths over {len(frames)} frame(s)) is "
+                        + (f"{float(br[0])}" if br[0] == br[1] else f"within [{float(br[0])}, {float(br[1])}]")
+                        + f" ({per_frame}{count_note})")
+            los[key].append(br[0])
+            his[key].append(br[1])
+        if pooled and count_note:
+            # the ground-truth count is the recall denominator of a defined AP of this label
+            return f"{tag}[{lab}]: the frames hold {G} ground truths of this label ({per_frame}){count_note}"
+    if exact:
+        for k, key in (("map", "aps"), ("maph", "aphs")):
+            if not m[key] and key == "aphs":
+                continue
+            if not los[key]:
+                if m[k] is not None:
+                    return f"{tag}: {k} {m[k]} but no label has a result"
+                continue
+            lo, hi = sum(los[key]) / len(los[key]), sum(his[key]) / len(his[key])
+            if m[k] is None or not (float(lo) - TOL <= m[k] <= float(hi) + TOL):
+                return f"{tag}: {k} {m[k]} is not the mean of the defined per-label areas ({float(lo)}" + ("" if lo == hi else f"..{float(hi)}") + ")"
+    return None
+
+
+def _num_eq(a, b):
+    if a is None or b is None:
+        return a is None and b is None
+    return abs(a - b) <= TOL
+
+
+def _same_ap(a, b):
+    if "err" in a or "err" in b:
+        return a.get("err") == b.get("err")
+    if a["ap"] is None and b["ap"] is None:
+        return True  # undefined on both sides: tp_list / fp_list are then no running sums over a ranking
+    return (_num_eq(a["ap"], b["ap"]) and len(a["tp"]) == len(b["tp"]) and len(a["fp"]) == len(b["fp"])
+            and all(_num_eq(x, y) for x, y in zip(a["tp"], b["tp"])) and all(_num_eq(x, y) for x, y in zip(a["fp"], b["fp"])))
+
+
+def _same_maps(ms1, ms2):
+    if len(ms1) != len(ms2):
+        return False
+    for m1, m2 in zip(ms1, ms2):
+        if m1["mode"] != m2["mode"] or m1["thrs"] != m2["thrs"] or not _num_eq(m1["map"], m2["map"]) or not _num_eq(m1["maph"], m2["maph"]):
+            return False
+        for key in ("aps", "aphs"):
+            if len(m1[key]) != len(m2[key]) or not all(_same_ap(a, b) for a, b in zip(m1[key], m2[key])):
+                return False
+    return True
+
+
+def _frame_key(fr):
+    return (sorted(json.dumps(d, sort_keys=True) for d in fr["res"]), sorted(fr["gts"]))
+
+
+def _oracle_scene(case, out):
+    """scene level through the manager: the scene's Map is a function of the frame results the manager holds"""
+    tg = case["targets"]
+    stored = out.get("stored")
+    if stored is None:
+        return None
+    if len(stored) != len(out["frames"]):
+        return f"the manager holds {len(stored)} frame results after {len(out['frames'])} add_frame_result calls"
+    for i, (a, b) in enumerate(zip(out["frames"], stored)):
+        if _frame_key(a) != _frame_key(b):
+            return f"frame {i}: the object results / ground truths held by the manager changed between add_frame_result and get_scene_result"
+    for i, (a, b) in enumerate(zip(out["frame_maps"], out["frame_maps_after"])):
+        if not _same_maps(a, b):
+            return f"frame {i}: the frame-level scores changed when the scene was evaluated"
+    if not _same_maps(out["maps"], out["maps_again"]):
+        return "get_scene_result gives different scores when asked twice on the same frames"
+    for i, (fr, maps) in enumerate(zip(stored, out["frame_maps"])):
+        for j, m in enumerate(maps):
+            f = _recompute_map(f"frame{i}.map[{j}:{m['mode']}]", m, [fr], tg)
+            if f:
+                return f
+    for j, m in enumerate(out["maps"]):
+        f = _recompute_map(f"scene.map[{j}:{m['mode']}]", m, stored, tg)
+        if f:
+            return f
+    if len(stored) == 1 and not _same_maps(out["maps"], out["frame_maps"][0]):
+        return "a one-frame scene scores differently from its only frame"
+    return None
+
+
 def oracle(case, out):
     if case["kind"] == "rank":
         if case.get("twod") or case.get("long"):
@@ -881,7 +1165,7 @@ def oracle(case, out):
             f = _oracle_map(f"scene.map[{j}:{m['mode']}]", m, out["frames"], tg, True)
             if f:
                 return f
-        return None
+        return _oracle_scene(case, out)
     for j, m in enumerate(out["maps"]):
         f = _oracle_map(f"map[{j}:{m['mode']}]", m, out["frames"], tg, False)
         if f:
@@ -932,6 +1216,51 @@ def _expected_error(case, out):
     return f"unexpected {err}"
 
 
+def _scene_branches(case, out):
+    """frame shapes of a manager scene, per (frame, label): gt = ground truths of the label, res = results filed under it"""
+    b = []
+    tn = case["targets"]
+    fam = "scene" if case.get("scene") else "mgr"
+    frames = out["stored"]
+    b.append(f"scene:{fam}:frames={len(frames)}")
+    for fr in case["frames"]:
+        if "shape" in fr:
+            b.append("scene:shape=" + fr["shape"])
+    if any(not fr["res"] and not fr["gts"] for fr in frames):
+        b.append("scene:has-empty-frame")
+    sensitive = False
+    for li, lab in enumerate(tn):
+        ng = [sum(1 for g in fr["gts"] if LABELS[g] == lab) for fr in frames]
+        nr = [sum(1 for d in fr["res"] if _bucket_of(d, tn) == lab) for fr in frames]
+        kinds = set()
+        for i, (g, r) in enumerate(zip(ng, nr)):
+            k = "gt-only" if g and not r else "res-only" if r and not g else "absent" if not g and not r else "both"
+            kinds.add(k)
+            b.append(f"scene:frame-label:{k}")
+            if k == "gt-only":
+                b.append("scene:gt-only-at:" + ("first" if i == 0 else "last" if i == len(frames) - 1 else "middle"))
+        if "gt-only" in kinds and sum(nr) > 0:
+            b.append("scene:label-missed-in-one-frame-detected-in-another")
+            # does the ground-truth count of the all-missed frames matter for the scene value of this label?
+            for m in out["maps"]:
+                if li < len(m["aps"]) and m["aps"][li].get("ap"):
+                    tps = [tp_by_text(d, m["mode"], lab, m["thrs"][li]) for fr in frames for d in fr["res"] if _bucket_of(d, tn) == lab]
+                    if None not in tps and any(tps):
+                        sensitive = True
+        if "gt-only" in kinds and "res-only" in kinds:
+            b.append("scene:label-gt-only-and-res-only-frames")
+        if sum(ng) > 0 and sum(nr) == 0:
+            b.append("scene:label-never-detected")
+    if sensitive:
+        b.append("scene:missed-frame-count-moves-scene-AP")
+    for m in out["maps"]:
+        fm = [x for maps in out["frame_maps"] for x in maps if x["mode"] == m["mode"] and x["thrs"] == m["thrs"] and x["map"] is not None]
+        if m["map"] is not None and fm:
+            mean = sum(x["map"] for x in fm) / len(fm)
+            b.append("scene:map" + ("=" if abs(mean - m["map"]) < 1e-12 else "<" if m["map"] < mean else ">") + "mean-of-frame-maps")
+    return b
+
+
 def branches(case, out):
     b = []
     if case["kind"] == "rank":
@@ -978,6 +1307,8 @@ def branches(case, out):
         b.append(f"map:defined={nd}/{len(m['aps'])}")
         if m["maph"] is not None and m["map"] is not None:
             b.append("map:maph" + ("=map" if abs(m["maph"] - m["map"]) < 1e-12 else "<map"))
+    if via == "manager" and "stored" in out:
+        b.extend(_scene_branches(case, out))
     for fr in out["frames"]:
         for d in fr["res"]:
             el = LABELS[d["l"]]
@@ -1027,4 +1358,6 @@ def search(rng, st, disagreements):
             cases.append(_rank_case(list(kinds), G, rng))
     for i in range(200):
         cases.append(_long_case(rng, 120))
+    for i in range(300):
+        cases.append(_scene_case(rng))
     return cases
